@@ -1,5 +1,5 @@
 (* C07 — Conversion options change the form of the output, never its meaning.
-   Only statements, each closed by `exact`, with Print Assumptions beneath.
+   Only statements, each closed by `exact`, with the Print-Assumptions command under each.
 
    WBXML half (model Model/EncWbxml.v, proofs Proofs/EncWbxmlProofs.v + Proofs/EncWbxmlC07.v): what is PROVED is that the
    version and the anonymity option change nothing but the header (same body bytes, same final string table, same
@@ -7,10 +7,14 @@
    resolves to the string it replaced: C06_value_split_spells_value + C06_strtbl_offsets_resolve + C06_strtbl_exact).
    NOT proved: "string table on / off decode to the same document" as a statement about decoded byte strings — it needs
    the Coq strict decoder (Spec.decode, C04); it is established on the C's bytes by vlib/strictdec.py for all 16 tuples.
-   XML half (compact / indented / canonical denote the same tree) and source transcoding: CORRESPONDED ONLY on the C
-   (props/C07/check.py); no theorem here (the lemmas c07_xml_* of the XML generator model were not available). *)
+   XML half (model Model/EncXml.v + reader Model/XmlRead.v of the XML generator development, Proofs/EncXmlProofs.v,
+   Proofs/EncXmlIndent.v): compact = canonical and indented (any width) = compact modulo blank text between markup are
+   PROVED for trees made of elements and (non-binary) text — `_partial` in the kinds of nodes only; CDATA sections,
+   embedded trees, binary-flagged content and the trim/keep interplay with canonical generation are corresponded on the C.
+   Source transcoding: CORRESPONDED ONLY (Expat's work). *)
 From Coq Require Import List NArith.
 From Wbxml Require Import Model.Codec Model.EncWbxml Proofs.EncWbxmlProofs Proofs.EncWbxmlC07.
+From Wbxml Require Model.EncXml Model.XmlRead Proofs.EncXmlProofs Proofs.EncXmlIndent.
 Import ListNotations.
 Local Open Scope N_scope.
 
@@ -72,6 +76,38 @@ Theorem C07_wbxml_value_elements_spell_value : forall (den : velt -> bytes),
   split_value e st is_attr buffer = Some l -> flat_map den l = buffer.
 Proof. exact split_value_den. Qed.
 Print Assumptions C07_wbxml_value_elements_spell_value.
+
+(* ---- XML half (statements over the XML generator model; qualified names: its tree type is its own) -------------- *)
+Module XmlHalf.
+  Import Wbxml.Model.EncXml Wbxml.Model.XmlRead Wbxml.Proofs.EncXmlProofs Wbxml.Proofs.EncXmlIndent.
+
+  (* compact and canonical generation of one tree are read back as the SAME document (white space kept; no TAB / LF / CR
+     in attribute values).  PARTIAL in the kinds of nodes (elements and text) *)
+  Theorem C07_xml_compact_equals_canonical_partial : forall l i1 i2 nm attrs ch out1 out2,
+    lang_ok l = true -> plain_attrs (Elt nm attrs ch) = true ->
+    node_ok l (opts_of_params Compact i1 true) proot None (Elt nm attrs ch) = true ->
+    node_ok l (opts_of_params Canonical i2 true) proot None (Elt nm attrs ch) = true ->
+    enc_xml l Compact i1 true [Elt nm attrs ch] = XOk out1 ->
+    enc_xml l Canonical i2 true [Elt nm attrs ch] = XOk out2 ->
+    forall fuel, (node_fuel (Elt nm attrs ch) + 2 <= fuel)%nat ->
+      exists d, read_xml fuel out1 = ROk d /\ read_xml fuel out2 = ROk d.
+  Proof. exact c07_xml_compact_canonical. Qed.
+  Print Assumptions C07_xml_compact_equals_canonical_partial.
+
+  (* indented generation with ANY indent width (reduced mod 256 like the C's WB_UTINY, 8-bit depth counter) and compact
+     generation: both accepted by the reader, same DOCTYPE, root elements equal modulo blank text between markup (nb:
+     elements with only character data are compared exactly).  PARTIAL in the kinds of nodes (elements and text) *)
+  Theorem C07_xml_indent_equals_compact_partial : forall l indent indent' keep_ws nm attrs ch out_i out_c,
+    lang_ok l = true ->
+    node_ok l (opts_of_params Compact indent' keep_ws) proot None (Elt nm attrs ch) = true ->
+    enc_xml l Indent indent keep_ws [Elt nm attrs ch] = XOk out_i ->
+    enc_xml l Compact indent' keep_ws [Elt nm attrs ch] = XOk out_c ->
+    forall fuel, (node_fuel (Elt nm attrs ch) + 2 <= fuel)%nat ->
+      exists ri rc,
+        read_xml fuel out_i = ROk (doc_of l [ri]) /\ read_xml fuel out_c = ROk (doc_of l [rc]) /\ nb ri = nb rc.
+  Proof. exact c07_xml_indent_compact. Qed.
+  Print Assumptions C07_xml_indent_equals_compact_partial.
+End XmlHalf.
 
 (* the hypotheses are satisfiable *)
 Example C07_example :
